@@ -341,7 +341,7 @@ def _worker_chunk(args):
   prop = _WORKER_PROP
   known = load_known_findings(prop.id)
   stats = BatchStats()
-  faulthandler.dump_traceback_later(600, exit=True)
+  faulthandler.dump_traceback_later(int(os.environ.get("VERIF_HANG_S", "600")), exit=True)
   try:
     for index in range(start, stop):
       if time.time() > deadline:
